@@ -61,6 +61,8 @@ def eval_load(spec, th, w, t):
             v += term['c'] * w
         elif k == 'quad':
             v += term['c'] * w * abs(w)
+        elif k == 'coulomb':
+            v += term['F'] * (1.0 if w > 0 else (-1.0 if w < 0 else 0.0))
         elif k == 'sinpos':
             v += term['A'] * math.sin(term['w'] * th + term['ph'])
         elif k == 'sintime':
@@ -704,9 +706,9 @@ def _execute(scn, keep_objects=False, prev_ctx=None):
     ctx.RecordingRule, ctx.ScriptedRule = make_rule_classes()
     ctx.control = None
     H['rules_built'] = []
-    if scn.get('rules'):
+    if scn.get('rules') or scn.get('empty_control'):
         ctx.control = g.motor_control.PWMControl(powertrain=pt)
-        for i, rs in enumerate(scn['rules']):
+        for i, rs in enumerate(scn.get('rules') or []):
             try:
                 ctx.control.add_rule(build_rule(ctx, i, rs))
                 H['rules_built'].append(None)
@@ -837,6 +839,19 @@ def _execute(scn, keep_objects=False, prev_ctx=None):
                 res['elements_type'] = type(pt.elements).__name__
                 res['self_locking'] = pt.self_locking
                 rec['probe'] = res
+            elif kind == 'branch_off':
+                # after assembly a chain element is declared as the master
+                # of a NEW element (say, to build a second powertrain on the
+                # same parts); the assembled powertrain keeps its own chain
+                try:
+                    new = construct(op['element'])
+                    if not hasattr(ctx, 'extra'):
+                        ctx.extra = []
+                    ctx.extra.append(new)      # not part of ctx.objs indices
+                    g.utils.add_fixed_joint(master=ctx.objs[op['decl']['m']],
+                                            slave=new)
+                except Exception as ex:      # noqa
+                    rec['exc'] = _exc(ex)
             elif kind == 'set_load':
                 # the user replaces the external torque function between runs
                 attach_load(op['load'])
